@@ -102,53 +102,160 @@ Proof.
     intuition (try lia).
 Qed.
 
+(** what match.go reads off an event in row [k]: DTSTART, DateTimeEnd, "has a DTEND" *)
+Definition kind_extent (k : evkind) : Z * Z * bool :=
+  match k with
+  | EvEnd a b => (a, b, true)
+  | EvDur a d => (a, a + d, false)%Z
+  | EvInstant a => (a, a, false)
+  | EvAllDay a => (a, a + 86400, false)%Z
+  end.
+
+Definition has_dtend (c : comp) : bool :=
+  match props_get "DTEND" c with Some _ => true | None => false end.
+
+Lemma event_extent c k :
+  event_kind c = Some k ->
+  exists sp a b,
+    props_get "DTSTART" c = Some sp /\ prop_datetime sp = Ok a /\ date_time_end c sp = Ok b /\
+    kind_extent k = (a, b, has_dtend c).
+Proof.
+  intros Hk. unfold event_kind in Hk. unfold has_dtend, date_time_end.
+  rewrite !props_get_first by reflexivity.
+  destruct (first_named "DTSTART" c) as [sp|]; [|discriminate].
+  exists sp. unfold prop_datetime, prop_is_date.
+  destruct (p_time sp) as [|a|a] eqn:Hsp; cbn [tv] in Hk; try discriminate;
+  (destruct (first_named "DTEND" c) as [ep|];
+   [ destruct (p_time ep) as [|b|b]; cbn [tv] in Hk; try discriminate;
+     inversion Hk; subst; exists a, b; repeat split; reflexivity
+   | destruct (first_named "DURATION" c) as [dp|];
+     [ destruct (p_dur dp) as [|d]; try discriminate; inversion Hk; subst;
+       exists a, (a + d)%Z; repeat split; reflexivity
+     | inversion Hk; subst; cbn [bind kind_extent];
+       first [ exists a, a; repeat split; reflexivity
+             | exists a, (a + 86400)%Z; repeat split; reflexivity ] ] ]).
+Qed.
+
+Lemma ltb_shift i d : (i <? i + d)%Z = (0 <? d)%Z.
+Proof.
+  destruct (0 <? d)%Z eqn:E1, (i <? i + d)%Z eqn:E2; try reflexivity;
+    [apply Z.ltb_lt in E1; apply Z.ltb_ge in E2; lia | apply Z.ltb_ge in E1; apply Z.ltb_lt in E2; lia].
+Qed.
+
+(** matchEventTimeRange on the instance that starts at [i] decides the row of the
+    table the event is in, shifted to [i] *)
+Lemma extent_overlap s e k i a b he :
+  kind_extent k = (a, b, he) ->
+  match_event_time_range s e i (i + (b - a)) he = overlaps s e (shift_kind k i).
+Proof.
+  intros H. unfold match_event_time_range.
+  destruct k as [a0 b0|a0 d|a0|a0]; cbn [kind_extent] in H; injection H as <- <- <-; cbn [shift_kind overlaps].
+  - rewrite Bool.orb_true_r. destruct (before_end i e), (start_before s (i + (b0 - a0))); reflexivity.
+  - replace (i + (a0 + d - a0))%Z with (i + d)%Z by lia. rewrite Bool.orb_false_r, ltb_shift.
+    destruct (0 <? d)%Z, (before_end i e), (start_before s (i + d)), (not_before i s); reflexivity.
+  - replace (i + (a0 - a0))%Z with i by lia. rewrite Bool.orb_false_r, Z.ltb_irrefl.
+    destruct (before_end i e), (not_before i s); reflexivity.
+  - replace (i + (a0 + 86400 - a0))%Z with (i + 86400)%Z by lia. rewrite Bool.orb_false_r, ltb_shift.
+    cbn [Z.ltb Z.compare]. destruct (before_end i e), (start_before s (i + 86400)); reflexivity.
+Qed.
+
+Lemma shift_kind_self s e k : overlaps s e (shift_kind k (ev_start k)) = overlaps s e k.
+Proof.
+  destruct k as [a b|a d|a|a]; cbn [shift_kind ev_start overlaps]; try reflexivity.
+  replace (a + (b - a))%Z with b by lia. reflexivity.
+Qed.
+
+Lemma extent_overlap_self s e k a b he :
+  kind_extent k = (a, b, he) -> match_event_time_range s e a b he = overlaps s e k.
+Proof.
+  intros H. rewrite <- shift_kind_self.
+  assert (Ha : ev_start k = a) by (destruct k; cbn [kind_extent] in H; inversion H; reflexivity).
+  rewrite Ha, <- (extent_overlap s e k a a b he H).
+  replace (a + (b - a))%Z with b by lia. reflexivity.
+Qed.
+
 Lemma comp_time_range_event s e c k :
   c_rec c = NoRRule -> c_name c = "VEVENT" -> event_kind c = Some k ->
   match_comp_time_range s e c = Ok (overlaps s e k).
 Proof.
   intros Hrec Hname Hk. unfold match_comp_time_range. rewrite Hrec, Hname. cbn [String.eqb Ascii.eqb Bool.eqb negb].
-  unfold date_time_end.
-  rewrite !props_get_first by reflexivity.
-  unfold event_kind in Hk.
-  destruct (first_named "DTSTART" c) as [sp|]; [|discriminate].
-  unfold prop_datetime, prop_is_date.
-  destruct (p_time sp) as [|a|a] eqn:Hsp; cbn [tv] in Hk; try discriminate;
-  (destruct (first_named "DTEND" c) as [ep|];
-   [ destruct (p_time ep) as [|b|b]; cbn [tv] in Hk; try discriminate;
-     inversion Hk; subst; cbn [bind overlaps];
-     rewrite Bool.orb_true_r; destruct (before_end a e), (start_before s b); reflexivity
-   | destruct (first_named "DURATION" c) as [dp|];
-     [ destruct (p_dur dp) as [|d]; try discriminate; inversion Hk; subst; cbn [bind overlaps];
-       rewrite Bool.orb_false_r;
-       replace (a <? a + d)%Z with (0 <? d)%Z by (destruct (0 <? d)%Z eqn:E1, (a <? a + d)%Z eqn:E2; try reflexivity;
-         [apply Z.ltb_lt in E1; apply Z.ltb_ge in E2; lia | apply Z.ltb_ge in E1; apply Z.ltb_lt in E2; lia]);
-       destruct (0 <? d)%Z, (before_end a e), (start_before s (a + d)), (not_before a s); reflexivity
-     | inversion Hk; subst; cbn [bind overlaps]; rewrite Bool.orb_false_r;
-       first [ rewrite Z.ltb_irrefl | replace (a <? a + 86400)%Z with true by (symmetry; apply Z.ltb_lt; lia) ];
-       destruct (before_end a e); try destruct (not_before a s); try destruct (start_before s (a + 86400)); reflexivity ] ]).
+  destruct (event_extent c k Hk) as [sp [a [b [Hs [Ha [Hb Hx]]]]]].
+  rewrite Hs, Ha, Hb. cbn [bind]. fold (has_dtend c). f_equal. apply extent_overlap_self. exact Hx.
 Qed.
 
 (** * Recurring components *)
 
-Lemma comp_time_range_recurring s e c tbl insts :
-  c_rec c = RSet tbl insts -> between_ok_at ((s, e), c) = true ->
-  match_comp_time_range s e c = Ok (rec_go s e insts).
+Lemma before_end_mono i j e : before_end i e = false -> (i <= j)%Z -> before_end j e = false.
 Proof.
-  intros Hrec Hb. unfold match_comp_time_range, between_ok_at in *. rewrite Hrec in *.
-  destruct (lookup_tr s e tbl) as [l|]; [|discriminate].
-  apply lz_eqb_eq in Hb. subst. reflexivity.
+  destruct e as [e'|]; cbn [before_end]; [|discriminate].
+  intros H Hij. apply Z.ltb_ge in H. apply Z.ltb_ge. lia.
+Qed.
+
+Lemma event_time_range_ended s e a b he : before_end a e = false -> match_event_time_range s e a b he = false.
+Proof. intros H. unfold match_event_time_range. rewrite H. reflexivity. Qed.
+
+(** the loop over the iterator finds an overlapping instance iff there is one,
+    given that the iterator yields in ascending order (and, for a list cut at a
+    horizon, that the cut cannot matter) *)
+Lemma rec_loop_exists s e d he hz seq :
+  ascending seq = true ->
+  (hz = None \/
+   (exists h e', hz = Some h /\ e = Some e' /\ (e' <=? h)%Z = true) \/
+   existsb (fun i => match_event_time_range s e i (i + d) he) seq = true) ->
+  rec_loop s e d he hz seq = Ok (existsb (fun i => match_event_time_range s e i (i + d) he) seq).
+Proof.
+  induction seq as [|i rest IH]; intros Hasc Hcut.
+  - cbn [rec_loop existsb]. destruct Hcut as [->|[[h [e' [-> [-> Hle]]]]|H]]; [reflexivity | rewrite Hle; reflexivity | discriminate].
+  - cbn [ascending] in Hasc. apply Bool.andb_true_iff in Hasc. destruct Hasc as [Hle Hasc].
+    cbn [rec_loop existsb].
+    destruct (before_end i e) eqn:Hbe; cbn [negb].
+    + destruct (match_event_time_range s e i (i + d) he) eqn:Hm; [reflexivity|].
+      cbn [orb]. apply IH; [exact Hasc|].
+      destruct Hcut as [H|[H|H]]; [left; exact H | right; left; exact H | right; right].
+      cbn [existsb] in H. rewrite Hm in H. exact H.
+    + rewrite event_time_range_ended by exact Hbe. cbn [orb]. f_equal. symmetry.
+      rewrite forallb_forall in Hle.
+      destruct (existsb _ rest) eqn:E; [|reflexivity].
+      apply existsb_exists in E. destruct E as [j [Hj Hmj]].
+      rewrite event_time_range_ended in Hmj; [discriminate|].
+      apply (before_end_mono i); [exact Hbe|]. apply Z.leb_le. apply Hle. exact Hj.
+Qed.
+
+Lemma first_named_none_kind c : first_named "DTSTART" c = None -> event_kind c = None.
+Proof. intros H. unfold event_kind. rewrite H. reflexivity. Qed.
+
+Lemma comp_time_range_recurring s e c seq hz insts :
+  c_rec c = RSet seq hz insts -> comp_time_ok c = true -> rset_ok_at ((s, e), c) = true ->
+  match_comp_time_range s e c = Ok (rec_spec s e c insts).
+Proof.
+  intros Hrec Hok Hb. unfold match_comp_time_range, rset_ok_at, comp_time_ok in *. rewrite Hrec in *.
+  apply Bool.andb_true_iff in Hb. destruct Hb as [Hb Hcov].
+  apply Bool.andb_true_iff in Hb. destruct Hb as [Heq Hasc]. apply lz_eqb_eq in Heq. subst seq.
+  destruct (first_named "DTSTART" c) as [sp0|] eqn:Hs.
+  - destruct (event_kind c) as [k|] eqn:Hk; [|discriminate].
+    destruct (event_extent c k Hk) as [sp [a [b [Hsp [Ha [Hb Hx]]]]]].
+    rewrite Hsp, Ha, Hb. cbn [bind]. fold (has_dtend c).
+    assert (Hext : existsb (fun i => match_event_time_range s e i (i + (b - a)) (has_dtend c)) insts
+                   = rec_spec s e c insts).
+    { unfold rec_spec. rewrite Hk. apply existsb_ext_in. intros i _. apply extent_overlap. exact Hx. }
+    rewrite <- Hext. apply rec_loop_exists; [exact Hasc|].
+    unfold horizon_covers in Hcov. destruct hz as [h|]; [|left; reflexivity].
+    destruct e as [e'|].
+    + right. left. exists h, e'. repeat split. exact Hcov.
+    + right. right. rewrite Hext. rewrite Hk in Hcov. exact Hcov.
+  - rewrite props_get_first by reflexivity. rewrite Hs.
+    unfold rec_spec. rewrite (first_named_none_kind c Hs). reflexivity.
 Qed.
 
 (** the model's time-range answer, given readable time values and an rrule that
-    kept its contract *)
-Lemma comp_time_range_go s e c :
-  comp_time_ok c = true -> between_ok_at ((s, e), c) = true ->
-  match_comp_time_range s e c = Ok (go_time_range s e c).
+    kept its contract: the RFC's *)
+Lemma comp_time_range_rfc s e c :
+  comp_time_ok c = true -> rset_ok_at ((s, e), c) = true ->
+  match_comp_time_range s e c = Ok (rfc4791_time_range s e c).
 Proof.
-  intros Hok Hb. unfold go_time_range.
-  destruct (c_rec c) as [| |tbl insts] eqn:Hrec.
-  - unfold rfc4791_time_range. rewrite Hrec.
-    unfold comp_time_ok in Hok. rewrite Hrec in Hok.
+  intros Hok Hb. unfold rfc4791_time_range.
+  destruct (c_rec c) as [| |seq hz insts] eqn:Hrec.
+  - unfold comp_time_ok in Hok. rewrite Hrec in Hok.
     destruct (String.eqb (c_name c) "VEVENT") eqn:Hn.
     + apply String.eqb_eq in Hn.
       destruct (event_kind c) as [k|] eqn:Hk.
@@ -161,14 +268,6 @@ Proof.
   - eapply comp_time_range_recurring; eassumption.
 Qed.
 
-Lemma go_time_range_rfc s e c :
-  rec_disagree ((s, e), c) = false -> go_time_range s e c = rfc4791_time_range s e c.
-Proof.
-  unfold rec_disagree, go_time_range, rfc4791_time_range.
-  destruct (c_rec c); try reflexivity.
-  intros H. apply Bool.negb_false_iff, Bool.eqb_prop in H. exact H.
-Qed.
-
 Lemma rec_spec_meaning s e c insts :
   rec_spec s e c insts = true <->
   exists k i, event_kind c = Some k /\ In i insts /\ overlaps_P s e (shift_kind k i).
@@ -178,6 +277,29 @@ Proof.
     + intros [i [Hi Ho]]. exists k, i. rewrite <- overlaps_table. auto.
     + intros [k' [i [Hk [Hi Ho]]]]. inversion Hk; subst. exists i. rewrite overlaps_table. auto.
   - split; [discriminate | intros [k [i [H _]]]; discriminate].
+Qed.
+
+(** an instance list cut at a horizon: instances after the horizon do not change
+    the answer where [horizon_covers] holds *)
+Lemma overlaps_ended s e k i : before_end i e = false -> overlaps s e (shift_kind k i) = false.
+Proof.
+  intros H. destruct k; cbn [shift_kind overlaps]; rewrite H; apply Bool.andb_false_r.
+Qed.
+
+Lemma rec_spec_later_instances s e c insts h later :
+  (forall j, In j later -> (h < j)%Z) ->
+  horizon_covers s e c (Some h) insts = true ->
+  rec_spec s e c (insts ++ later) = rec_spec s e c insts.
+Proof.
+  intros Hl Hc. unfold horizon_covers in Hc. unfold rec_spec in *.
+  destruct (event_kind c) as [k|]; [|reflexivity].
+  rewrite existsb_app. destruct e as [e'|].
+  - replace (existsb _ later) with false; [apply Bool.orb_false_r|]. symmetry.
+    destruct (existsb _ later) eqn:E; [|reflexivity].
+    apply existsb_exists in E. destruct E as [j [Hj Ho]].
+    rewrite overlaps_ended in Ho; [discriminate|].
+    cbn [before_end]. apply Z.ltb_ge. apply Z.leb_le in Hc. specialize (Hl j Hj). lia.
+  - rewrite Hc. reflexivity.
 Qed.
 
 (** * 9.7.3 param-filter, 9.7.2 prop-filter *)
@@ -272,7 +394,7 @@ Qed.
 
 (** the hypotheses about time values, as a predicate on the places evaluated *)
 Definition places_ok (f : comp_filter) (c : comp) : Prop :=
-  (forall tc, In tc (tr_pairs f c) -> comp_time_ok (snd tc) = true /\ between_ok_at tc = true) /\
+  (forall tc, In tc (tr_pairs f c) -> comp_time_ok (snd tc) = true /\ rset_ok_at tc = true) /\
   (forall p, In p (ptr_pairs f c) -> readable p).
 
 Lemma places_ok_sub name s e props comps c cf ch :
@@ -289,24 +411,24 @@ Proof.
     apply in_flat_map. exists ch. split; assumption.
 Qed.
 
-Lemma match_holds_go f : forall c,
+Lemma match_holds_rfc f : forall c,
   named (cf_name f) c = true -> cf_nd f = false -> places_ok f c ->
-  match_ f c = Ok (holds_with go_time_range f c).
+  match_ f c = Ok (rfc4791_holds f c).
 Proof.
   induction f as [name nd s e props comps IH] using comp_filter_ind'.
   intros c Hn Hnd Hpl. cbn [cf_name cf_nd] in Hn, Hnd. subst nd.
-  cbn [match_ holds_with]. unfold named in Hn. rewrite Hn. cbn [negb].
+  unfold rfc4791_holds in *. cbn [match_ holds_with]. unfold named in Hn. rewrite Hn. cbn [negb].
   assert (Ht : (if has_range s e then match_comp_time_range s e c else Ok true)
-               = Ok (if has_range s e then go_time_range s e c else true)).
+               = Ok (if has_range s e then rfc4791_time_range s e c else true)).
   { destruct (has_range s e) eqn:Hhas; [|reflexivity].
     destruct Hpl as [H1 _]. destruct (H1 ((s, e), c)) as [Ha Hb].
     { cbn [tr_pairs]. rewrite Hn, Hhas. cbn [negb orb]. left. reflexivity. }
-    apply comp_time_range_go; assumption. }
+    apply comp_time_range_rfc; assumption. }
   rewrite Ht. cbn [bind].
-  destruct (if has_range s e then go_time_range s e c else true); cbn [negb andb]; [|reflexivity].
+  destruct (if has_range s e then rfc4791_time_range s e c else true); cbn [negb andb]; [|reflexivity].
   rewrite (all_res_ok _ (fun cf =>
              if cf_nd cf then negb (existsb (named (cf_name cf)) (c_children c))
-             else existsb (fun ch => named (cf_name cf) ch && holds_with go_time_range cf ch) (c_children c))).
+             else existsb (fun ch => named (cf_name cf) ch && holds_with rfc4791_time_range cf ch) (c_children c))).
   2:{ intros cf Hcf. unfold match_comp_filter_with.
       rewrite Forall_forall in IH. specialize (IH cf Hcf).
       destruct (cf_nd cf) eqn:Hcnd.
@@ -314,7 +436,7 @@ Proof.
         + reflexivity.
         + intros ch Hch Hnm. destruct cf as [n2 nd2 s2 e2 p2 c2]. cbn [cf_nd cf_name] in *. subst nd2.
           cbn [match_]. unfold named in Hnm. rewrite Hnm. reflexivity.
-      - rewrite (mcf_loop_ok _ (fun ch => holds_with go_time_range cf ch)).
+      - rewrite (mcf_loop_ok _ (fun ch => holds_with rfc4791_time_range cf ch)).
         + reflexivity.
         + intros ch Hch Hnm. apply IH; [exact Hnm | reflexivity |].
           eapply places_ok_sub; [ | exact Hpl | exact Hcf | exact Hch]. exact Hn. }
@@ -325,66 +447,33 @@ Proof.
   apply in_or_app. left. apply in_flat_map. exists pf. split; assumption.
 Qed.
 
-(** Match's answer on any filter and component: the RFC's, with match.go's
-    instance rule for recurring components. *)
-Lemma match_go f c : places_ok f c -> match_ f c = Ok (go_comp f c).
+(** Match's answer on any filter and component: the RFC's. *)
+Lemma match_rfc f c : places_ok f c -> match_ f c = Ok (rfc4791_comp f c).
 Proof.
-  intros Hpl. unfold go_comp, scope_with. cbn [existsb]. rewrite !Bool.orb_false_r.
+  intros Hpl. unfold rfc4791_comp, rfc4791_scope, scope_with. cbn [existsb]. rewrite !Bool.orb_false_r.
   destruct (named (cf_name f) c) eqn:Hn.
   - destruct (cf_nd f) eqn:Hnd.
     + destruct f as [name nd s e props comps]. cbn [cf_name cf_nd] in *. subst nd.
       cbn [match_]. unfold named in Hn. rewrite Hn. reflexivity.
-    + cbn [andb]. apply match_holds_go; assumption.
+    + cbn [andb]. apply match_holds_rfc; assumption.
   - destruct f as [name nd s e props comps]. cbn [cf_name cf_nd] in *.
     cbn [match_]. unfold named in Hn. rewrite Hn. cbn [negb andb]. destruct nd; reflexivity.
 Qed.
 
-(** * The finding delimited: away from it match.go's rule is the RFC's *)
-
-Lemma holds_go_rfc f : forall c,
-  named (cf_name f) c = true -> cf_nd f = false ->
-  (forall tc, In tc (tr_pairs f c) -> rec_disagree tc = false) ->
-  holds_with go_time_range f c = rfc4791_holds f c.
+Lemma hyps_places f c : times_ok f c = true -> rset_ok f c = true -> places_ok f c.
 Proof.
-  induction f as [name nd s e props comps IH] using comp_filter_ind'.
-  intros c Hn Hnd Hk. cbn [cf_name cf_nd] in Hn, Hnd. subst nd. unfold named in Hn.
-  unfold rfc4791_holds. cbn [holds_with]. f_equal. f_equal.
-  - destruct (has_range s e) eqn:Hhas; [|reflexivity].
-    apply go_time_range_rfc. apply Hk. cbn [tr_pairs]. rewrite Hn, Hhas. left. reflexivity.
-  - apply forallb_ext_in. intros cf Hcf. destruct (cf_nd cf) eqn:Hcnd; [reflexivity|].
-    apply existsb_ext_in. intros ch Hch. destruct (named (cf_name cf) ch) eqn:Hnm; [|reflexivity].
-    cbn [andb]. rewrite Forall_forall in IH. apply (IH cf Hcf); [exact Hnm | exact Hcnd |].
-    intros tc Htc. apply Hk. cbn [tr_pairs]. rewrite Hn. cbn [negb orb].
-    apply in_or_app. right. apply in_flat_map. exists cf. split; [exact Hcf|].
-    apply in_flat_map. exists ch. split; assumption.
-Qed.
-
-Lemma go_comp_rfc f c :
-  kf_recurring_overlap f c = false -> go_comp f c = rfc4791_comp f c.
-Proof.
-  intros Hk. unfold go_comp, rfc4791_comp, rfc4791_scope, scope_with. cbn [existsb].
-  destruct (cf_nd f) eqn:Hnd; [reflexivity|].
-  destruct (named (cf_name f) c) eqn:Hn; [|reflexivity]. cbn [andb]. f_equal.
-  apply holds_go_rfc; try assumption.
-  intros tc Htc. unfold kf_recurring_overlap in Hk.
-  destruct (rec_disagree tc) eqn:E; [|reflexivity].
-  assert (existsb rec_disagree (tr_pairs f c) = true) by (apply existsb_exists; eauto). congruence.
-Qed.
-
-Lemma hyps_places f c : times_ok f c = true -> between_ok f c = true -> places_ok f c.
-Proof.
-  unfold times_ok, between_ok. intros Ht Hb. apply Bool.andb_true_iff in Ht. destruct Ht as [Ht1 Ht2].
+  unfold times_ok, rset_ok. intros Ht Hb. apply Bool.andb_true_iff in Ht. destruct Ht as [Ht1 Ht2].
   rewrite forallb_forall in Ht1, Ht2, Hb. split.
   - intros tc Htc. split; [apply Ht1 | apply Hb]; exact Htc.
   - intros p Hp. specialize (Ht2 p Hp). unfold readable. destruct (p_time p); congruence.
 Qed.
 
-(** C06_match_except_recurring_overlap *)
-Theorem match_rfc_except_recurring f c :
-  times_ok f c = true -> between_ok f c = true -> kf_recurring_overlap f c = false ->
+(** C06_match_recurring *)
+Theorem match_rfc_recurring f c :
+  times_ok f c = true -> rset_ok f c = true ->
   match_ f c = Ok (rfc4791_comp f c).
 Proof.
-  intros Ht Hb Hk. rewrite <- go_comp_rfc by exact Hk. apply match_go. apply hyps_places; assumption.
+  intros Ht Hb. apply match_rfc. apply hyps_places; assumption.
 Qed.
 
 (** calendars without recurring components *)
@@ -404,56 +493,48 @@ Proof.
 Qed.
 
 Lemma no_recurring_places f c tc :
-  no_recurring c = true -> In tc (tr_pairs f c) ->
-  between_ok_at tc = true /\ rec_disagree tc = false.
+  no_recurring c = true -> In tc (tr_pairs f c) -> rset_ok_at tc = true.
 Proof.
   intros Hn Htc. apply tr_pairs_sub in Htc. unfold no_recurring in Hn. rewrite forallb_forall in Hn.
   specialize (Hn _ Htc). destruct tc as [[s e] x]. cbn [snd] in Hn.
-  unfold between_ok_at, rec_disagree. destruct (c_rec x); try discriminate; split; reflexivity.
+  unfold rset_ok_at. destruct (c_rec x); try discriminate; reflexivity.
 Qed.
 
 (** C06_match *)
 Theorem match_rfc_nonrecurring f c :
   no_recurring c = true -> times_ok f c = true -> match_ f c = Ok (rfc4791_comp f c).
 Proof.
-  intros Hn Ht. apply match_rfc_except_recurring; [exact Ht | |].
-  - unfold between_ok. apply forallb_forall. intros tc Htc. eapply no_recurring_places; eassumption.
-  - unfold kf_recurring_overlap. destruct (existsb rec_disagree (tr_pairs f c)) eqn:E; [|reflexivity].
-    apply existsb_exists in E. destruct E as [tc [Htc Hd]].
-    destruct (no_recurring_places f c tc Hn Htc) as [_ H]. congruence.
+  intros Hn Ht. apply match_rfc_recurring; [exact Ht |].
+  unfold rset_ok. apply forallb_forall. intros tc Htc. eapply no_recurring_places; eassumption.
 Qed.
 
-(** the finding is real: an instance that began before the range and still runs *)
-Definition kf_witness_filter : comp_filter :=
+(** the witness of the former finding [recurring_overlap] (an instance that began
+    before the range and still runs; match.go answered false): repaired *)
+Definition old_witness_filter : comp_filter :=
   CF "VCALENDAR" false None None []
      [CF "VEVENT" false (Some 1583836200%Z) (Some 1583837100%Z) [] []].
-Definition kf_witness_calendar : comp :=
+Definition old_witness_calendar : comp :=
   Comp "VCALENDAR" [] NoRRule
     [Comp "VEVENT"
        [mkProp "DTSTART" [] "20200310T100000Z" (TInstant 1583834400%Z) DBad;
         mkProp "DURATION" [] "PT1H" TBad (DOk 3600%Z);
         mkProp "RRULE" [] "FREQ=DAILY;COUNT=2" TBad DBad]
-       (RSet [((Some 1583836200%Z, Some 1583837100%Z), [])] [1583834400%Z; 1583920800%Z])
+       (RSet [1583834400%Z; 1583920800%Z] None [1583834400%Z; 1583920800%Z])
        []].
 
-Theorem recurring_overlap_refuted :
-  exists f c,
-    times_ok f c = true /\ between_ok f c = true /\ kf_recurring_overlap f c = true /\
-    match_ f c = Ok false /\ rfc4791_comp f c = true.
-Proof. exists kf_witness_filter, kf_witness_calendar. vm_compute. repeat split. Qed.
+Theorem recurring_overlap_repaired :
+  times_ok old_witness_filter old_witness_calendar = true /\
+  rset_ok old_witness_filter old_witness_calendar = true /\
+  match_ old_witness_filter old_witness_calendar = Ok true /\
+  rfc4791_comp old_witness_filter old_witness_calendar = true.
+Proof. vm_compute. repeat split. Qed.
 
 (** * Recurring components: the statement on the time range alone *)
 
-Theorem recurring_time_range s e c tbl insts :
-  c_rec c = RSet tbl insts ->
-  lookup_tr s e tbl = Some (spec_between s e insts) ->
-  rec_disagree ((s, e), c) = false ->
+Theorem recurring_time_range s e c seq hz insts :
+  c_rec c = RSet seq hz insts -> comp_time_ok c = true -> rset_ok_at ((s, e), c) = true ->
   match_comp_time_range s e c = Ok (rec_spec s e c insts).
-Proof.
-  intros Hrec Hl Hd. unfold match_comp_time_range. rewrite Hrec, Hl.
-  unfold rec_disagree in Hd. rewrite Hrec in Hd.
-  apply Bool.negb_false_iff, Bool.eqb_prop in Hd. rewrite <- Hd. reflexivity.
-Qed.
+Proof. exact (comp_time_range_recurring s e c seq hz insts). Qed.
 
 (** * Errors and panics *)
 
@@ -476,16 +557,46 @@ Proof.
    | destruct (first_named "DURATION" c) as [dp|]; [destruct (p_dur dp); try discriminate; reflexivity | discriminate] ]).
 Qed.
 
+(** in general: a component on which go-ical cannot produce the time values the
+    time range needs (the rule set, DTSTART, DTEND or DURATION — also of a
+    recurring component, whose extent every instance shares) yields an error *)
+Lemma event_unreadable c sp (K : Z -> Z -> res bool) :
+  first_named "DTSTART" c = Some sp -> event_kind c = None ->
+  bind (prop_datetime sp) (fun a => bind (date_time_end c sp) (fun b => K a b)) = Err 500.
+Proof.
+  intros Hs Hk. unfold event_kind in Hk. rewrite Hs in Hk.
+  unfold date_time_end. rewrite !props_get_first by reflexivity. unfold prop_datetime.
+  destruct (p_time sp) as [|a|a]; cbn [tv] in Hk; [reflexivity| |];
+  (destruct (first_named "DTEND" c) as [ep|];
+   [ destruct (p_time ep); cbn [tv] in Hk; try discriminate; reflexivity
+   | destruct (first_named "DURATION" c) as [dp|]; [destruct (p_dur dp); try discriminate; reflexivity | discriminate] ]).
+Qed.
+
+Lemma comp_time_range_unreadable s e c : comp_time_ok c = false -> match_comp_time_range s e c = Err 500.
+Proof.
+  intros H. unfold comp_time_ok in H. unfold match_comp_time_range.
+  destruct (c_rec c) as [| |seq hz insts]; [| reflexivity |].
+  - destruct (String.eqb (c_name c) "VEVENT"); [|discriminate]. cbn [negb].
+    rewrite props_get_first by reflexivity.
+    destruct (first_named "DTSTART" c) as [sp|] eqn:Hs; [|discriminate].
+    destruct (event_kind c) eqn:Hk; [discriminate|].
+    apply (event_unreadable c sp (fun a b => Ok (match_event_time_range s e a b _)) Hs Hk).
+  - rewrite props_get_first by reflexivity.
+    destruct (first_named "DTSTART" c) as [sp|] eqn:Hs; [|discriminate].
+    destruct (event_kind c) eqn:Hk; [discriminate|].
+    apply (event_unreadable c sp (fun a b => rec_loop s e (b - a) _ hz seq) Hs Hk).
+Qed.
+
 Lemma prop_time_range_err s e p : p_time p = TBad -> match_prop_time_range s e p = Err 500.
 Proof. intros H. unfold match_prop_time_range, prop_datetime. rewrite H. reflexivity. Qed.
 
 (** an error has a cause: a time value go-ical cannot read under a time range
     (or rrule oracle data that is missing or off contract) *)
 Theorem match_err_cause f c code :
-  match_ f c = Err code -> times_ok f c && between_ok f c = false.
+  match_ f c = Err code -> times_ok f c && rset_ok f c = false.
 Proof.
-  intros H. destruct (times_ok f c) eqn:Ht; [|reflexivity]. destruct (between_ok f c) eqn:Hb; [|reflexivity].
-  rewrite match_go in H by (apply hyps_places; assumption). discriminate.
+  intros H. destruct (times_ok f c) eqn:Ht; [|reflexivity]. destruct (rset_ok f c) eqn:Hb; [|reflexivity].
+  rewrite match_rfc in H by (apply hyps_places; assumption). discriminate.
 Qed.
 
 (** Match never panics on an object that has data, whatever the time values *)
@@ -515,23 +626,34 @@ Proof.
   apply bind_no_panic; [apply H|]. intros r. apply IH.
 Qed.
 
+Lemma rec_loop_no_panic s e d he hz seq : no_panic (rec_loop s e d he hz seq).
+Proof.
+  unfold no_panic. induction seq as [|i rest IH]; cbn [rec_loop].
+  - destruct hz as [h|]; [|discriminate]. destruct e as [e'|]; [|discriminate].
+    destruct (e' <=? h)%Z; discriminate.
+  - destruct (negb (before_end i e)); [discriminate|].
+    destruct (match_event_time_range s e i (i + d) he); [discriminate | exact IH].
+Qed.
+
 Lemma comp_time_range_no_panic s e c : no_panic (match_comp_time_range s e c).
 Proof.
-  unfold match_comp_time_range, date_time_end, prop_datetime, no_panic.
-  destruct (c_rec c); try discriminate.
+  unfold match_comp_time_range.
+  destruct (c_rec c) as [| |seq hz insts]; [| discriminate |].
   - destruct (negb (String.eqb (c_name c) "VEVENT")); [discriminate|].
     destruct (props_get "DTSTART" c) as [sp|]; [|discriminate].
+    apply bind_no_panic; [unfold prop_datetime; destruct (p_time sp); discriminate|]. intros a.
+    apply bind_no_panic; [|intros b; discriminate].
+    unfold date_time_end, prop_datetime.
+    destruct (props_get "DTEND" c) as [ep|]; [destruct (p_time ep); discriminate|].
     destruct (p_time sp); cbn [bind]; try discriminate;
-      (destruct (props_get "DTEND" c) as [ep|];
-       [ destruct (p_time ep); cbn [bind]; try discriminate;
-         match goal with |- context [if ?b then _ else _] => destruct b end; try discriminate;
-         match goal with |- context [if ?b then _ else _] => destruct b end; discriminate
-       | destruct (props_get "DURATION" c) as [dp|];
-         [ destruct (p_dur dp); cbn [bind]; try discriminate |
-           cbn [bind] ];
-         match goal with |- context [if negb ?b then _ else _] => destruct b end; cbn [negb]; try discriminate;
-         match goal with |- context [if ?b then _ else _] => destruct b end; discriminate ]).
-  - destruct (lookup_tr s e between); discriminate.
+      (destruct (props_get "DURATION" c) as [dp|]; [destruct (p_dur dp); discriminate | discriminate]).
+  - destruct (props_get "DTSTART" c) as [sp|]; [|discriminate].
+    apply bind_no_panic; [unfold prop_datetime; destruct (p_time sp); discriminate|]. intros a.
+    apply bind_no_panic; [|intros b; apply rec_loop_no_panic].
+    unfold date_time_end, prop_datetime.
+    destruct (props_get "DTEND" c) as [ep|]; [destruct (p_time ep); discriminate|].
+    destruct (p_time sp); cbn [bind]; try discriminate;
+      (destruct (props_get "DURATION" c) as [dp|]; [destruct (p_dur dp); discriminate | discriminate]).
 Qed.
 
 Lemma match_prop_filter_no_panic pf c : no_panic (match_prop_filter pf c).
@@ -573,8 +695,7 @@ Qed.
 (** * Filter *)
 
 Definition obj_ok (f : comp_filter) (o : cobj) : Prop :=
-  exists c, o_data o = Some c /\ times_ok f c = true /\ between_ok f c = true /\
-            kf_recurring_overlap f c = false.
+  exists c, o_data o = Some c /\ times_ok f c = true /\ rset_ok f c = true.
 
 Theorem filter_rfc f os :
   (forall o, In o os -> obj_ok f o) ->
@@ -582,9 +703,9 @@ Theorem filter_rfc f os :
 Proof.
   cbn [filter_objs]. induction os as [|o os IH]; intros H; [reflexivity|].
   cbn [filter_loop filter].
-  destruct (H o (or_introl eq_refl)) as [c [Hd [Ht [Hb Hk]]]].
+  destruct (H o (or_introl eq_refl)) as [c [Hd [Ht Hb]]].
   unfold match_top, obj_matches at 1. rewrite Hd.
-  rewrite match_rfc_except_recurring by assumption. cbn [bind].
+  rewrite match_rfc_recurring by assumption. cbn [bind].
   rewrite IH by (intros y Hy; apply H; right; exact Hy). reflexivity.
 Qed.
 
@@ -617,21 +738,16 @@ Qed.
 Lemma comp_time_range_ok_inv s e c b :
   match_comp_time_range s e c = Ok b -> comp_time_ok c = true.
 Proof.
-  intros H. unfold comp_time_ok.
-  destruct (c_rec c) eqn:Hrec; [| rewrite comp_time_range_rrule_err in H by exact Hrec; discriminate | reflexivity].
-  destruct (String.eqb (c_name c) "VEVENT") eqn:Hn; [|reflexivity].
-  apply String.eqb_eq in Hn.
-  destruct (first_named "DTSTART" c) eqn:Hs; [|reflexivity].
-  destruct (event_kind c) eqn:Hk; [reflexivity|].
-  rewrite comp_time_range_event_err in H; try assumption; [discriminate | congruence].
+  intros H. destruct (comp_time_ok c) eqn:E; [reflexivity|].
+  rewrite comp_time_range_unreadable in H by exact E. discriminate.
 Qed.
 
 Lemma comp_time_range_pc s e c b :
-  between_ok_at ((s, e), c) = true ->
-  match_comp_time_range s e c = Ok b -> b = go_time_range s e c.
+  rset_ok_at ((s, e), c) = true ->
+  match_comp_time_range s e c = Ok b -> b = rfc4791_time_range s e c.
 Proof.
   intros Hb H. pose proof (comp_time_range_ok_inv _ _ _ _ H) as Hok.
-  rewrite comp_time_range_go in H by assumption. inversion H. reflexivity.
+  rewrite comp_time_range_rfc in H by assumption. inversion H. reflexivity.
 Qed.
 
 Lemma match_prop_pc f p b : match_prop f p = Ok b -> b = rfc4791_prop_inst f p.
@@ -696,13 +812,13 @@ Proof.
     + apply (IH (fun y b' Hy => H y b' (or_intror Hy)) _ _ _ Hr).
 Qed.
 
-Definition between_places (f : comp_filter) (c : comp) : Prop :=
-  forall tc, In tc (tr_pairs f c) -> between_ok_at tc = true.
+Definition rset_places (f : comp_filter) (c : comp) : Prop :=
+  forall tc, In tc (tr_pairs f c) -> rset_ok_at tc = true.
 
-Lemma between_places_sub name s e props comps c cf ch :
+Lemma rset_places_sub name s e props comps c cf ch :
   named name c = true ->
-  between_places (CF name false s e props comps) c ->
-  In cf comps -> In ch (c_children c) -> between_places cf ch.
+  rset_places (CF name false s e props comps) c ->
+  In cf comps -> In ch (c_children c) -> rset_places cf ch.
 Proof.
   intros Hn H Hcf Hch tc Htc. unfold named in Hn. apply H. cbn [tr_pairs]. rewrite Hn. cbn [negb orb].
   apply in_or_app. right. apply in_flat_map. exists cf. split; [exact Hcf|].
@@ -710,22 +826,22 @@ Proof.
 Qed.
 
 Lemma match_holds_pc f : forall c b,
-  named (cf_name f) c = true -> cf_nd f = false -> between_places f c ->
-  match_ f c = Ok b -> b = holds_with go_time_range f c.
+  named (cf_name f) c = true -> cf_nd f = false -> rset_places f c ->
+  match_ f c = Ok b -> b = holds_with rfc4791_time_range f c.
 Proof.
   induction f as [name nd s e props comps IH] using comp_filter_ind'.
   intros c b Hn Hnd Hbp H. cbn [cf_name cf_nd] in Hn, Hnd. subst nd.
   cbn [match_ holds_with] in *. unfold named in Hn. rewrite Hn in H. cbn [negb] in H.
   destruct (if has_range s e then match_comp_time_range s e c else Ok true) as [t| |] eqn:Ht;
     cbn [bind] in H; try discriminate.
-  assert (Et : t = if has_range s e then go_time_range s e c else true).
+  assert (Et : t = if has_range s e then rfc4791_time_range s e c else true).
   { destruct (has_range s e) eqn:Hhas; [|inversion Ht; reflexivity].
     eapply comp_time_range_pc; [|exact Ht]. apply Hbp. cbn [tr_pairs]. rewrite Hn, Hhas. left. reflexivity. }
   rewrite <- Et. destruct t; cbn [negb andb] in *; [|inversion H; reflexivity].
   destruct (all_res _ comps) as [a| |] eqn:Ha; cbn [bind] in H; try discriminate.
   apply (all_res_pc _ (fun cf =>
              if cf_nd cf then negb (existsb (named (cf_name cf)) (c_children c))
-             else existsb (fun ch => named (cf_name cf) ch && holds_with go_time_range cf ch) (c_children c))) in Ha.
+             else existsb (fun ch => named (cf_name cf) ch && holds_with rfc4791_time_range cf ch) (c_children c))) in Ha.
   2:{ intros cf r Hcf Hr. unfold match_comp_filter_with in Hr.
       destruct (mcf_loop _ _ _ _ _) as [dm| |] eqn:Hl; cbn [bind] in Hr; try discriminate.
       rewrite Forall_forall in IH. specialize (IH cf Hcf).
@@ -734,18 +850,18 @@ Proof.
         + subst dm. inversion Hr. reflexivity.
         + intros ch b' Hch Hnm Hm. destruct cf as [n2 nd2 s2 e2 p2 c2]. cbn [cf_nd cf_name] in *. subst nd2.
           cbn [match_] in Hm. unfold named in Hnm. rewrite Hnm in Hm. inversion Hm. reflexivity.
-      - apply (mcf_loop_pc _ (fun ch => holds_with go_time_range cf ch)) in Hl.
+      - apply (mcf_loop_pc _ (fun ch => holds_with rfc4791_time_range cf ch)) in Hl.
         + subst dm. inversion Hr. reflexivity.
         + intros ch b' Hch Hnm Hm. apply IH; [exact Hnm | reflexivity | | exact Hm].
-          eapply between_places_sub; [ | exact Hbp | exact Hcf | exact Hch]. exact Hn. }
+          eapply rset_places_sub; [ | exact Hbp | exact Hcf | exact Hch]. exact Hn. }
   rewrite <- Ha. destruct a; cbn [negb andb] in *; [|inversion H; reflexivity].
   apply (all_res_pc _ (fun pf => rfc4791_prop pf c)) in H; [exact H|].
   intros pf r _. apply match_prop_filter_pc.
 Qed.
 
-Lemma match_go_pc f c b : between_places f c -> match_ f c = Ok b -> b = go_comp f c.
+Lemma match_rfc_pc f c b : rset_places f c -> match_ f c = Ok b -> b = rfc4791_comp f c.
 Proof.
-  intros Hbp H. unfold go_comp, scope_with. cbn [existsb]. rewrite !Bool.orb_false_r.
+  intros Hbp H. unfold rfc4791_comp, rfc4791_scope, scope_with. cbn [existsb]. rewrite !Bool.orb_false_r.
   destruct (named (cf_name f) c) eqn:Hn.
   - destruct (cf_nd f) eqn:Hnd.
     + destruct f as [name nd s e props comps]. cbn [cf_name cf_nd] in *. subst nd.
@@ -755,27 +871,27 @@ Proof.
     cbn [match_] in H. unfold named in Hn. rewrite Hn in H. cbn [negb andb] in *. inversion H. subst. destruct b; reflexivity.
 Qed.
 
-(** C06_match_verdict_except_recurring_overlap *)
+(** C06_match_verdict *)
 Theorem match_verdict_rfc f c b :
-  between_ok f c = true -> kf_recurring_overlap f c = false ->
+  rset_ok f c = true ->
   match_ f c = Ok b -> b = rfc4791_comp f c.
 Proof.
-  intros Hb Hk H. rewrite <- go_comp_rfc by exact Hk. eapply match_go_pc; [|exact H].
-  unfold between_ok in Hb. rewrite forallb_forall in Hb. exact Hb.
+  intros Hb H. eapply match_rfc_pc; [|exact H].
+  unfold rset_ok in Hb. rewrite forallb_forall in Hb. exact Hb.
 Qed.
 
 (** * Agreement of the implementation with the model entails the specification *)
 
 Theorem match_agree_spec_ok f o ob :
-  match_agrees f o ob = true -> match_kf f o = false -> match_spec_ok f o ob = true.
+  match_agrees f o ob = true -> match_spec_ok f o ob = true.
 Proof.
-  unfold match_kf, match_spec_ok.
+  unfold match_spec_ok.
   destruct (o_data o) as [c|] eqn:Hd.
-  - destruct (between_ok f c) eqn:Hb; [|intros H _; exact H].
-    cbn [andb]. intros Ha Hk. unfold match_agrees, match_top in Ha. rewrite Hd in Ha.
+  - destruct (rset_ok f c) eqn:Hb; [|intros H; exact H].
+    intros Ha. unfold match_agrees, match_top in Ha. rewrite Hd in Ha.
     destruct (match_ f c) as [b|code|] eqn:Hm.
     + destruct ob; try discriminate. rewrite Bool.eqb_true_iff in Ha. subst.
-      rewrite (match_verdict_rfc f c b0 Hb Hk Hm). apply Bool.eqb_reflx.
+      rewrite (match_verdict_rfc f c b0 Hb Hm). apply Bool.eqb_reflx.
     + destruct ob; try discriminate. apply match_err_cause in Hm. rewrite Hb, Bool.andb_true_r in Hm.
       rewrite Hm. reflexivity.
     + exfalso. exact (match_no_panic f c Hm).
@@ -815,19 +931,13 @@ Proof.
 Qed.
 
 Theorem filter_agree_spec_ok q os ob :
-  filter_agrees q os ob = true -> filter_kf q os = false -> filter_spec_ok q os ob = true.
+  filter_agrees q os ob = true -> filter_spec_ok q os ob = true.
 Proof.
-  destruct q as [f|]; unfold filter_spec_ok, filter_kf.
-  2:{ intros Ha _. unfold filter_agrees in Ha. cbn [filter_objs] in Ha. destruct ob; try discriminate. exact Ha. }
-  destruct (forallb (obj_between_ok f) os) eqn:Hall; [|intros H _; exact H].
-  cbn [andb]. intros Ha Hk. unfold filter_agrees in Ha. cbn [filter_objs] in Ha.
+  destruct q as [f|]; unfold filter_spec_ok.
+  2:{ intros Ha. unfold filter_agrees in Ha. cbn [filter_objs] in Ha. destruct ob; try discriminate. exact Ha. }
+  destruct (forallb (obj_rset_ok f) os) eqn:Hall; [|intros H; exact H].
+  intros Ha. unfold filter_agrees in Ha. cbn [filter_objs] in Ha.
   rewrite forallb_forall in Hall.
-  assert (Hnk : forall o c, In o os -> o_data o = Some c -> kf_recurring_overlap f c = false).
-  { intros o c Ho Hd. destruct (kf_recurring_overlap f c) eqn:E; [|reflexivity].
-    assert (existsb (match_kf f) os = true).
-    { apply existsb_exists. exists o. split; [exact Ho|]. unfold match_kf. rewrite Hd, E.
-      specialize (Hall o Ho). unfold obj_between_ok in Hall. rewrite Hd in Hall. rewrite Hall. reflexivity. }
-    congruence. }
   pose proof (filter_loop_inv f os) as Hinv.
   destruct (filter_loop f os) as [l|code|].
   - destruct ob; try discriminate.
@@ -835,13 +945,13 @@ Proof.
     assert (El : l = filter (obj_matches f) os).
     { subst l. apply filter_verdicts; [exact HF|].
       intros o v Ho Hov. unfold match_top, obj_matches in *. destruct (o_data o) as [c|] eqn:Hd; [|discriminate].
-      apply match_verdict_rfc; [| eapply Hnk; [exact Ho | exact Hd] | exact Hov].
-      specialize (Hall o Ho). unfold obj_between_ok in Hall. rewrite Hd in Hall. exact Hall. }
+      apply match_verdict_rfc; [| exact Hov].
+      specialize (Hall o Ho). unfold obj_rset_ok in Hall. rewrite Hd in Hall. exact Hall. }
     rewrite <- El. exact Ha.
   - destruct ob; try discriminate.
     destruct Hinv as [o [code' [Hin Hm]]]. apply existsb_exists. exists o. split; [exact Hin|].
     unfold match_top, obj_unreadable in *. destruct (o_data o) as [c|] eqn:Hd; [|discriminate].
-    apply match_err_cause in Hm. specialize (Hall o Hin). unfold obj_between_ok in Hall. rewrite Hd in Hall.
+    apply match_err_cause in Hm. specialize (Hall o Hin). unfold obj_rset_ok in Hall. rewrite Hd in Hall.
     rewrite Hall, Bool.andb_true_r in Hm. rewrite Hm. reflexivity.
   - destruct ob; try discriminate.
     destruct Hinv as [o [Hin Hm]]. apply existsb_exists. exists o. split; [exact Hin|].
